@@ -367,6 +367,34 @@ def run(prop, tier):
         states += at.distinct
         transitions += at.generated
         extra_notes.append("application level: %d frames around the configured maximum through passage::start, judged by Trace_Listener" % len(aobs))
+    if prop == "C06":
+        # a client that stops at any point of the script, against the whole application: nothing more is sent until the server closes the
+        # connection at its deadline (no packet of another phase, no farewell) -- Trace_Listener!C06_SilentUntilDeadlineClose
+        import listener_check
+        dscs = [{"family": "C06deadline", "timeoutS": 2, "behaviour": b} for b in
+                ("silent", "status-after-handshake", "status-no-ping", "login-after-handshake", "login-after-loginstart", "login-after-session", "transfer-after-session", "login-after-encreq")]
+        for x in dscs:
+            if x["behaviour"] == "transfer-after-session":
+                x["secret"] = "a secret of the operator"
+        dfails, dobs, dt = listener_check.app_stage("C06", dscs, wd, "deadline")
+        for sc, o, clauses in dfails:
+            rep.violation("C06 %s [application: client stops at '%s', connection deadline %ss]" % ("+".join(clauses), sc["behaviour"], sc["timeoutS"]),
+                          {"failing_clauses": clauses, "scenario": sc, "observed": o, "seed": seed})
+        states += dt.distinct
+        transitions += dt.generated
+        extra_notes.append("application level: %d clients stopping at successive points of the script until the deadline, judged by Trace_Listener" % len(dobs))
+    if prop == "C02":
+        # "not older than the configured expiry": the age that counts is the age when the cookie is presented -- a client may idle inside the
+        # connection (within the connection deadline) before it answers the request. Real time, through passage::start.
+        import listener_check
+        cscs = [x for x in listener_check.scenarios("C14", "quick", seed, os.path.join(wd))[0] if x["family"] == "C14cookie"]
+        cfails, cobs, ct = listener_check.app_stage("C02", cscs, wd, "expiry")
+        for sc, o, clauses in cfails:
+            rep.violation("C02 %s [application: expiry=%ss age at connect=%ss idle before presenting=%ss]" % ("+".join(clauses), o.get("expiry"), o.get("age"), o.get("stallS")),
+                          {"failing_clauses": clauses, "scenario": sc, "observed": o, "seed": seed})
+        states += ct.distinct
+        transitions += ct.generated
+        extra_notes.append("application level: %d cookie presentations (age at connect x idle time x expiry), judged by Trace_Listener!C02_ExpiryJudgedAtPresentation" % len(cobs))
     if prop in ("C02", "C10"):
         # behind a balancer: which address the issued cookie records / is bound to, observed through the real Listener with the
         # PROXY protocol on (arrival histories from Admission.tla, clause in Trace_Listener)
